@@ -23,6 +23,9 @@ CHECKS = {
  'C09': dict(cat='model_checking', design='5/C09', technique='TLA+ Container model (one action per mutating operation, json/ojson ordering, moved-from unspecified); TLC checks model invariants and emits one conformance test per transition; relational laws stated in TLA+ and checked by TLC trace validation on recorded operator outcomes',
    text='(a) TLC explores the Container model (3 slots, 7 literal kinds, 3 keys) and emits every transition with a witness history and the expected state of every slot; the harness replays each history on real json/ojson values and compares projections, lookups and copies. (b) For all ordered pairs of 54 value descriptors and all integer conversions the harness records what ==, !=, <, <=, >, >=, dump, is<T>, as<T> return; Trace_C09 validates the laws of ValueLaws.tla (reflexive, symmetric, agreement with ordering and serialization, is=>as exact).',
    note='Histories up to 4 (quick) / 5 (thorough) operations. Cross-kind ordering itself is not predicted, only the laws the property states; NaN is exempt from the order laws.'),
+ 'C07': dict(cat='model_checking', design='5/C07', technique='TLA+ reference decoders written from RFC 8949 / the MessagePack, UBJSON and BSON specifications; TLC enumerates byte strings and head/payload token sequences with predicted verdict and value, replayed through the real decoders',
+   text='For each format TLC enumerates byte strings (all first bytes x representative later bytes; every strict prefix) and token sequences (every type code at every width with boundary arguments, reserved codes, indefinite forms, break codes, valid/invalid UTF-8) and the TLA+ reference decoder predicts well-formedness and the decoded value; the harness requires the same verdict and value from decode_X, reader+json_decoder, stream source and cursor.',
+   note='Bounded input length (3-4 bytes / 3 tokens up to 27 bytes). Values without a documented jsoncons mapping are compared on the verdict only.'),
 }
 NA = {}
 
